@@ -16,7 +16,7 @@ PUMPS = [{'power': 0.224403, 'frequency': 205e12, 'propagation_direction': 'coun
 CHAINS = [
     'F80', 'F0.05', 'F10', 'F120', 'F200', 'F460', 'F1500', 'F80_F60', 'F40_U_F30', 'U_F60', 'F60_U', 'F30_U_U_F20',
     'E_F80', 'F80_E', 'F80_E_F70', 'Efull_F100_Efull', 'Etype_F100_Egain', 'Evoa_F90_Edp', 'F100lumped', 'F200lumped',
-    'F200att', 'F80perfreq', 'R80_E', 'F80_R80', 'F100_F100_F100', 'Evoa_F100', 'Evoa_F70_F70', 'F80_Evoa', 'F80conin', 'F80conout',
+    'F200lumped_unsorted', 'F460lumped3', 'F200att', 'F80perfreq', 'R80_E', 'F80_R80', 'F100_F100_F100', 'Evoa_F100', 'Evoa_F70_F70', 'F80_Evoa', 'F80conin', 'F80conout',
 ]
 
 
@@ -45,6 +45,10 @@ def chain(kind, amp_low='std_low_gain', amp_med='std_medium_gain'):
         'Evoa_F90_Edp': [e(None, out_voa=2.0), f(90), e(amp_med, delta_p=2.0, in_voa=1.0)],
         'F100lumped': [f(100, lumped_losses=[{'position': 20, 'loss': 1.0}, {'position': 70, 'loss': 0.5}])],
         'F200lumped': [f(200, lumped_losses=[{'position': 20, 'loss': 1.0}, {'position': 150, 'loss': 0.5}])],
+        # lumped losses listed in another order than their positions (the documents do not ask for an order)
+        'F200lumped_unsorted': [f(200, lumped_losses=[{'position': 150, 'loss': 0.5}, {'position': 20, 'loss': 1.0}])],
+        'F460lumped3': [f(460, lumped_losses=[{'position': 300, 'loss': 0.4}, {'position': 20, 'loss': 1.0},
+                                              {'position': 200, 'loss': 0.7}])],
         'F200att': [f(200, att_in=2.0)],
         'F80perfreq': [f(80, loss={'value': [0.22, 0.2, 0.21], 'frequency': [186e12, 193.4e12, 198e12]})],
         'R80_E': [raman_fiber(80), e()],
